@@ -132,6 +132,7 @@ type Sim struct {
 	polRng   *rand.Rand
 	hookStep func(s *Sim)
 	endCh    chan struct{}
+	waiting  []*rpcState // calls that start once an earlier call's client side has finished
 }
 
 type closureCheck struct {
@@ -604,7 +605,32 @@ func (s *Sim) checkClosure() {
 func (s *Sim) allClientsDone() bool {
 	s.mu.Lock()
 	defer s.mu.Unlock()
-	return s.liveActors == 0
+	return s.liveActors == 0 && len(s.waiting) == 0
+}
+
+// startWaiting starts the calls whose predecessor has finished on the client
+// side (sequential calls on one channel / server / kept-alive connection).
+func (s *Sim) startWaiting() {
+	if len(s.waiting) == 0 {
+		return
+	}
+	var keep, start []*rpcState
+	s.mu.Lock()
+	for _, rs := range s.waiting {
+		pre := s.rpcs[rs.r.After-1]
+		if pre.clientEnded {
+			start = append(start, rs)
+		} else {
+			keep = append(keep, rs)
+		}
+	}
+	s.waiting = keep
+	s.mu.Unlock()
+	for _, rs := range start {
+		s.tracef("start rpc%d (after rpc%d)", rs.r.ID, rs.r.After-1)
+		s.probe("sequential-call-started")
+		s.spawnClient(rs, 0, rs.r.Client)
+	}
 }
 
 func (s *Sim) loop(maxSteps int) {
@@ -616,6 +642,7 @@ func (s *Sim) loop(maxSteps int) {
 		if s.hookStep != nil {
 			s.hookStep(s)
 		}
+		s.startWaiting()
 		if s.allClientsDone() {
 			return
 		}
